@@ -700,16 +700,18 @@ class BrownianInterval(brownian_base.BaseBrownian, _Interval):
         # For safety we then make this a bit smaller by multiplying by 0.8.
         piece_length = self._tree_dt * cache_size * 0.8
 
-        def _set_points(interval):
+        # Iterate with an explicit stack: children created by earlier queries need not be halves of their parent, so
+        # the depth of this traversal is not logarithmic and must not consume Python stack frames.
+        stack = [self]
+        while stack:
+            interval = stack.pop()
             start = interval._start
             end = interval._end
             if end - start > piece_length:
                 midway = (end + start) / 2
                 interval._loc(start, midway)
-                _set_points(interval._left_child)
-                _set_points(interval._right_child)
-
-        _set_points(self)
+                stack.append(interval._right_child)
+                stack.append(interval._left_child)
 
     def __repr__(self):
         if self._dt is None:
